@@ -368,6 +368,50 @@ fn close_spacing_case(n: usize, a: f64, k: u64, p: f64) -> Result<(), String> {
     Ok(())
 }
 
+/// norms on data of extreme magnitude (squares overflow above 1.3e154 and underflow below 1.5e-162): the laws are stated
+/// for all data, so they must survive; reference 2-norm through an exact power-of-two rescaling
+fn extreme_norms_case(x: &[f64]) -> Result<(), String> {
+    let n = x.len();
+    let v = Vector::create(x.to_vec());
+    let ninf = x.iter().fold(0.0f64, |m, t| m.max(t.abs()));
+    let n1: f64 = x.iter().map(|t| t.abs()).sum();
+    // 2^k >= max |x_i|: dividing by it is exact, the scaled squares are in [0, 1]
+    let want2 = if ninf == 0.0 {
+        0.0
+    } else {
+        let k = ninf.log2().ceil() as i32;
+        let (h1, h2) = (2.0f64.powi(k / 2), 2.0f64.powi(k - k / 2));
+        let s: f64 = x.iter().map(|t| (t / h1 / h2) * (t / h1 / h2)).sum();
+        s.sqrt() * h1 * h2
+    };
+    let g2 = v.norm_2();
+    ensure!(g2 >= 0.0 && g2.is_finite(), "norm_2 = {:e} for finite data {:?}", g2, x);
+    ensure!(ulps(g2, want2) <= 8, "norm_2 = {:e} expected {:e} for {:?}", g2, want2, x);
+    ensure!(v.norm_inf() == ninf, "norm_inf = {:e} expected {:e}", v.norm_inf(), ninf);
+    ensure!(v.norm_1() == n1, "norm_1 = {:e} expected {:e}", v.norm_1(), n1);
+    let slack = 1.0 + 8.0 * f64::EPSILON;
+    ensure!(ninf <= g2 * slack && g2 <= n1 * slack, "inf-norm <= 2-norm <= 1-norm violated: {:e} {:e} {:e} for {:?}", ninf, g2, n1, x);
+    for p in [1.5, 3.0, 8.0] {
+        let gp = v.norm_p(p);
+        ensure!(gp.is_finite() && gp >= 0.0, "norm_p({}) = {:e} for finite data {:?}", p, gp, x);
+        ensure!(ninf <= gp * (1.0 + 1e-13) && gp <= n1 * (1.0 + 1e-13), "inf-norm <= {}-norm <= 1-norm violated: {:e} {:e} {:e} for {:?}", p, ninf, gp, n1, x);
+    }
+    // homogeneity under exact scalings that neither overflow nor underflow the data
+    for al in [0.5, -4.0] {
+        if x.iter().all(|t| *t == 0.0 || ((t * al).abs() < 1e300 && (t * al).abs() > 1e-300)) {
+            let s = v.clone() * al;
+            ensure!(s.norm_2() == al.abs() * g2, "norm_2({} x) = {:e} but |{}| norm_2(x) = {:e}", al, s.norm_2(), al, al.abs() * g2);
+        }
+    }
+    // triangle inequality against the reversed vector
+    let w: Vec<f64> = x.iter().rev().map(|t| -t * 0.5).collect();
+    let vw = Vector::create(w);
+    let sum = &v + &vw;
+    ensure!(sum.norm_2() <= (g2 + vw.norm_2()) * slack, "triangle inequality norm_2");
+    let _ = n;
+    Ok(())
+}
+
 // --- E2 ---------------------------------------------------------------------------------------------------
 #[derive(Clone)]
 struct St {
@@ -530,7 +574,7 @@ fn main() {
     ctx.level("model_checking");
     ctx.rule("E1: all vectors of length 0..4 over {0,1,-1,2,1/2} (every same-length pair for +, -, dot and the assignment forms; every (start,end) for range sums/products; scalar forms, abs, norm_1, find, sort, constructors, conj/real); a family of lengths 5..64; integer-valued f64 vectors of length 0..6 over {0,1,-2,3} for norm_1/2/p/inf against exact values with the norm inequalities, homogeneity and triangle inequality; linspace/powspace for every n in 2..64, 4 (a,b) pairs, p in {1/2,1,2,3}. E2: BFS over histories of push/push_front/insert(every position)/pop/swap/resize/assign/clear/sort/index writes on a real Vector<Rat> of length <= 5 against a Vec model, every reduction re-checked in every state. Non-trivial: empty vectors, length-1 vectors, partial ranges, descending spacings, middle inserts.");
     ctx.assume("norm checks use integer-valued data so that the reference values are exact");
-    ctx.require(&["empty vector", "pairs of length 4", "long vector (>= 16)", "descending sequence", "power spacing p != 1", "complex entry on the negative imaginary axis", "coinciding limits", "limits a few ulp apart", "empty vector state", "full-length state", "insert in the middle", "resize"]);
+    ctx.require(&["empty vector", "pairs of length 4", "long vector (>= 16)", "descending sequence", "power spacing p != 1", "complex entry on the negative imaginary axis", "coinciding limits", "limits a few ulp apart", "entries whose squares overflow", "entries whose squares underflow", "empty vector state", "full-length state", "insert in the middle", "resize"]);
     let l = letters();
     // singles
     let total: u64 = (0..=4u32).map(|k| 5u64.pow(k)).sum();
@@ -643,6 +687,35 @@ fn main() {
             judge(acc, idx, || format!("{:?}", x), || norms_case(&x));
         },
     );
+    {
+        let b = 2.0f64;
+        let xl = [0.0, 1.0, -3.0, b.powi(600), -3.0 * b.powi(600), b.powi(-600), 5.0 * b.powi(-620), -b.powi(520), 1e200, -1e-200];
+        let total: u64 = (1..=4u32).map(|k| 10u64.pow(k)).sum();
+        ctx.lattice(
+            "Vector<f64> norms on data of extreme magnitude: all vectors of length 1..4 over {0,1,-3,+-2^600 multiples,2^-600,5*2^-620,-2^520,1e200,-1e-200}",
+            total,
+            |idx| format!("{}", idx),
+            |idx, acc| {
+                let mut i = idx;
+                let mut len = 1u32;
+                while i >= 10u64.pow(len) {
+                    i -= 10u64.pow(len);
+                    len += 1;
+                }
+                let x: Vec<f64> = (0..len).map(|_| {
+                    let v = xl[(i % 10) as usize];
+                    i /= 10;
+                    v
+                }).collect();
+                if x.iter().any(|t| t.abs() > 1e160) {
+                    acc.nontriv("entries whose squares overflow");
+                } else if x.iter().all(|t| t.abs() < 1e-160) && x.iter().any(|t| *t != 0.0) {
+                    acc.nontriv("entries whose squares underflow");
+                }
+                judge(acc, idx, || format!("extreme {:?}", x), || extreme_norms_case(&x));
+            },
+        );
+    }
     // f64 scalar operations on data where x / s and x * (1/s) differ
     let sl = [49.0, 5.0, 7.0, 10.0, 3.0, 1.0, -0.3];
     let sd = [3.0, 7.0, 49.0, 10.0, 0.1, -1.5];
